@@ -6,7 +6,8 @@
    cdata.  `reduce sg bits z` (C04/Spec.v) is C's conversion result: the unique value of the
    target's range congruent to z modulo 2^bits (C04_reduce_canonical). *)
 From Coq Require Import ZArith List Bool Lia.
-From Cffi Require Import C03.Mem C04.Spec C04.IR C04.Gen C04.Model C04.Interp C04.Proofs C04.GenProofs.
+From Cffi Require Import C03.Mem C03.Store C03.StoreProofs.
+From Cffi Require Import C04.Spec C04.IR C04.Gen C04.Model C04.Interp C04.Proofs C04.GenProofs C04.Proofs2.
 Import ListNotations.
 Open Scope Z_scope.
 
@@ -81,6 +82,48 @@ Theorem C04_gen_cast_not_strict : cast_number_strict = false.
 Proof. exact gen_cast_not_strict. Qed.
 Print Assumptions C04_gen_cast_not_strict.
 
+(* ---- link with the C03 store model (C03/Store.v, convert_from_object integer branches).
+   ity_of T is the C03 integer ctype of the same size / signedness / _Bool-ness; encode_int is the
+   byte content C03_store_exact speaks about.  For an integer or _Bool target and a Python int in
+   T's range, ffi.cast(T, v) holds exactly the bytes that `p[0] = v` stores (and that store
+   succeeds, whatever the target held before). *)
+Theorem C04_cast_agrees_with_store : forall T v data, wf_cty T -> int_target T ->
+  in_range (ity_of T) v = true ->
+  cast_bytes T (SInt v) = COk (encode_int (ity_of T) v) /\
+  convert_from_object_int (ity_of T) v data = (Ok tt, encode_int (ity_of T) v).
+Proof. exact cast_agrees_with_store. Qed.
+Print Assumptions C04_cast_agrees_with_store.
+
+(* general form, any Python int v: the cast holds the bytes that the store writes for v reduced
+   into T's range (C04/Spec.v reduce), a value the store accepts *)
+Theorem C04_cast_is_store_of_reduced : forall T v data, wf_cty T -> ckind T = KSigned \/ ckind T = KUnsigned ->
+  let r := reduce (isigned (ity_of T)) (tbits (ity_of T)) v in
+  cast_bytes T (SInt v) = COk (encode_int (ity_of T) r) /\
+  convert_from_object_int (ity_of T) r data = (Ok tt, encode_int (ity_of T) r).
+Proof. exact cast_is_store_of_reduced. Qed.
+Print Assumptions C04_cast_is_store_of_reduced.
+
+(* ---- do_cast, pointer branch, over the strict flag regenerated from the source
+   (C04.Gen.cast_ptr_strict; Interp.gen_cast_int_to_ptr consumes it): the conversion is the masking
+   one of the hand model (never fails), so any Python int can be cast to a pointer, and
+   pointer -> intptr_t / uintptr_t -> pointer gives the address back.  With the flag set to 1 in the
+   source, gen_cast_int_to_ptr raises OverflowError on negative ints: these three proofs fail. *)
+Theorem C04_gen_ptr_refines : forall psize v, gen_cast_int_to_ptr psize v = COk (cast_int_to_ptr psize v).
+Proof. exact gen_ptr_refines. Qed.
+Print Assumptions C04_gen_ptr_refines.
+
+Theorem C04_gen_int_to_ptr_total : forall psize v, (1 <= psize <= 8)%nat ->
+  gen_cast_int_to_ptr psize v = COk (v mod 2 ^ (8 * Z.of_nat psize)).
+Proof. exact gen_int_to_ptr_total. Qed.
+Print Assumptions C04_gen_int_to_ptr_total.
+
+Theorem C04_gen_ptr_roundtrip : forall (sg : bool) (psize : nat) a,
+  (1 <= psize <= 8)%nat -> 0 <= a < 2 ^ (8 * Z.of_nat psize) ->
+  exists z, int_of_cast (mk_cty (if sg then KSigned else KUnsigned) psize) (SPtr a) = COk z /\
+            gen_cast_int_to_ptr psize z = COk a.
+Proof. exact gen_ptr_roundtrip. Qed.
+Print Assumptions C04_gen_ptr_roundtrip.
+
 (* non-vacuity and a few readings of the statement *)
 Example C04_ex_wf : wf_cty (mk_cty KSigned 2) /\ wf_cty (mk_cty (KChar true) 4) /\ wf_cty (mk_cty (KChar false) 1).
 Proof. unfold wf_cty; cbn; repeat split; try lia; try discriminate; intros; try lia;
@@ -101,4 +144,16 @@ Example C04_ex_errors : int_of_cast (mk_cty KSigned 4) (SStrLen 2) = CErr CTypeE
 Proof. vm_compute. split; reflexivity. Qed.
 Example C04_ex_gen : gen_cast_bytes (mk_cty KBool 1) (SPtr 256) = COk [1] /\
                      gen_cast_bytes (mk_cty KSigned 2) (SInt (-2)) = COk [254; 255].
+Proof. vm_compute. split; reflexivity. Qed.
+Example C04_ex_store_hyps :
+  wf_cty (mk_cty KSigned 2) /\ int_target (mk_cty KSigned 2) /\ in_range (ity_of (mk_cty KSigned 2)) (-2) = true /\
+  wf_cty (mk_cty KBool 1) /\ int_target (mk_cty KBool 1) /\ in_range (ity_of (mk_cty KBool 1)) 1 = true /\
+  in_range (ity_of (mk_cty KBool 1)) 2 = false.
+Proof. unfold wf_cty, int_target; cbn; repeat split; try lia; try discriminate; auto; intros; try discriminate; lia. Qed.
+Example C04_ex_store : cast_bytes (mk_cty KSigned 2) (SInt (-2)) = COk [254; 255] /\
+                       convert_from_object_int (ity_of (mk_cty KSigned 2)) (-2) [7; 7] = (Ok tt, [254; 255]) /\
+                       cast_bytes (mk_cty KUnsigned 1) (SInt 257) = COk (encode_int (ity_of (mk_cty KUnsigned 1)) 1) /\
+                       convert_from_object_int (ity_of (mk_cty KUnsigned 1)) 257 [7] = (Err OverflowError, [7]).
+Proof. vm_compute. repeat split. Qed.
+Example C04_ex_gen_ptr : gen_cast_int_to_ptr 8 (-16) = COk (2 ^ 64 - 16) /\ gen_cast_int_to_ptr 8 (2 ^ 64 + 3) = COk 3.
 Proof. vm_compute. split; reflexivity. Qed.
